@@ -42,7 +42,7 @@ MANIFEST = {
             'for every n: each index read is >= 0 (no wrap-around to the end of the input), each store fits the element type, each loop '
             'invariant is inductive, and each returned series satisfies level(R[k]) <= k outside its constant region - so value k is a '
             'function of candles 0..k only, for inputs of ANY length (default parameters). Proved for the indicators listed in the evidence '
-            '(115 of 168 on the unchanged tree); the prover can only prove - where it does not apply, or loses a proof after a change, the '
+            '(119 of 168 on the unchanged tree); the prover can only prove - where it does not apply, or loses a proof after a change, the '
             'bounded layers decide: symbolic execution on concrete-length symbolic candles (prefix vs full input, term by term) and the '
             'bounded native prefix comparison on long and tied series.',
     'note': 'default parameters; indicators not proved by the unbounded layer are listed per name in the evidence with the reason and are '
